@@ -99,6 +99,7 @@ def run_harness(exe, cases, timeout_per=8):
     i = 0
     env = dict(os.environ)
     env.update(common.ASAN_ENV)
+    env["UBSAN_OPTIONS"] = common.ASAN_ENV["UBSAN_OPTIONS"] + ":abort_on_error=1"     # SIGABRT -> the harness prints its partial line
     while i < len(cases):
         chunk = cases[i:i + 200]
         inp = "\n".join(c.line() for c in chunk) + "\n"
